@@ -217,18 +217,22 @@ def base_diff(
                 diff_pre=diff_pre[row]["match"],
             )))
 
-    old_indexes = {row: index for (index, row) in enumerate(old)}
+    # positions are compared among the rows present on both sides: a removal in front of a row does not move it
+    old_indexes = {row: index for (index, row) in enumerate(row for row in old if row in new)}
     block_in_disorder = False
     parent_op = pops[-1]
+    common_index = 0
     for (index, row) in enumerate(new):
         if row not in old:
             block_in_disorder = True
             op = Op.ADDED
-        elif block_in_disorder or index != old_indexes[row]:
-            block_in_disorder = True
-            op = (Op.MOVED if not moved_to_affected else parent_op)
         else:
-            op = parent_op
+            if block_in_disorder or common_index != old_indexes[row]:
+                block_in_disorder = True
+                op = (Op.MOVED if not moved_to_affected else parent_op)
+            else:
+                op = parent_op
+            common_index += 1
         children = call_diff_logic(diff_pre[row]["subtree"], old.get(row, {}), new[row], pops + (op,))
         diff_indexed.append((index, DiffItem(
             op=op,
